@@ -67,8 +67,8 @@ _VAR_VALUES = {
 }
 
 
-def variable_assignments(schema, op):
-    """all assignments: Booleans exhaustively, one representative for other types, absent where legal"""
+def variable_assignments(schema, op, with_null=False):
+    """all assignments: Booleans exhaustively, one representative for other types, absent where legal (explicit null on request)"""
     choices = []
     for vd in op.vars:
         t = doc.parse_type_str(vd.type)
@@ -83,6 +83,8 @@ def variable_assignments(schema, op):
             opts = [[b] for b in base]
         if t[0] != "nn" or vd.default is not None:
             opts.append(C.ABSENT)
+        if with_null and t[0] != "nn":
+            opts.insert(0, None)
         if not opts:
             opts = [C.ABSENT]
         choices.append([(vd.name, o) for o in opts])
